@@ -229,7 +229,7 @@ func genC10(tier string, seed int64) []core.Case {
 	}
 	r := rand.New(rand.NewSource(seed*104729 + 10))
 	for i := 0; i < n; i++ {
-		c := core.Case{ID: fmt.Sprintf("rnd%05d", i), Kind: "random", Seed: r.Int63(), S: map[string]string{"keys": []string{"hostile", "hostile", "windowed", "long", "binary"}[r.Intn(5)]}, N: map[string]int64{}}
+		c := core.Case{ID: fmt.Sprintf("rnd%05d", i), Kind: "random", Seed: r.Int63(), S: map[string]string{"keys": []string{"hostile", "prefix", "windowed", "long", "binary", "prefix"}[r.Intn(6)]}, N: map[string]int64{}}
 		if i < 2 {
 			c.N["sample"] = 1
 		}
